@@ -506,7 +506,9 @@ func (c *Ctx) cod3() {
 			}
 			l2 := has(func(x cmp) bool { return lenOf(x.X, "Client.peek") && isK(x.Y, 2) && x.Op == token.GEQ })
 			// the topic end, 2 + the 16-bit topic length, may equal the packet length (empty payload) but not exceed it
-			topic := has(func(x cmp) bool { return lenOf(x.Y, "Client.peek") && x.Op == token.LEQ && fromUint16(x.X, 0) && !isPlus(x.X, 2, true) })
+			topic := has(func(x cmp) bool {
+				return lenOf(x.Y, "Client.peek") && x.Op == token.LEQ && fromUint16(x.X, 0) && !isPlus(x.X, 2, true)
+			})
 			q := qosOnPath(p)
 			idLen, idNZ := true, true
 			if q == 1 || q == 2 {
